@@ -324,7 +324,10 @@ func (m *TmLightModel) Verdict(u *TmUpdate, now time.Time) TmVerdict {
 	if u.Height.Rev != u.TrustedHeight.Rev {
 		no(TmRRevision)
 	}
-	if u.ChainID != m.P.ChainID {
+	// the tracked chain, in the revision the header claims: a client whose chain id carries a
+	// revision number follows "<name>-<r>" for every revision r it holds trusted states of
+	wantID := m.ExpectedChainID(u.Height.Rev)
+	if u.ChainID != wantID {
 		no(TmRChainID)
 	}
 	// 5 newer
@@ -366,7 +369,7 @@ func (m *TmLightModel) Verdict(u *TmUpdate, now time.Time) TmVerdict {
 			}
 			good := false
 			if cs.BlockIDFlag == cmttypes.BlockIDFlagCommit && u.Own[i].Pub != nil {
-				msg := u.Commit.VoteSignBytes(m.P.ChainID, int32(i))
+				msg := u.Commit.VoteSignBytes(wantID, int32(i))
 				good = u.Own[i].Pub.VerifySignature(msg, cs.Signature)
 			}
 			if good {
@@ -441,7 +444,7 @@ func (m *TmLightModel) Verdict(u *TmUpdate, now time.Time) TmVerdict {
 					if !bytes.Equal(tv.Addr, cs.ValidatorAddress) || counted[string(tv.Addr)] {
 						continue
 					}
-					msg := u.Commit.VoteSignBytes(m.P.ChainID, int32(i))
+					msg := u.Commit.VoteSignBytes(wantID, int32(i))
 					if tv.Pub != nil && tv.Pub.VerifySignature(msg, cs.Signature) {
 						counted[string(tv.Addr)] = true
 						v.TrustSigned.Add(v.TrustSigned, big.NewInt(tv.Power))
@@ -500,6 +503,28 @@ func tmFirst(failed []string) string {
 		}
 	}
 	return failed[0]
+}
+
+// ExpectedChainID is the chain id a header of revision rev must carry: the client's
+// chain id, with its revision number replaced by rev when it has one.
+func (m *TmLightModel) ExpectedChainID(rev uint64) string {
+	id := m.P.ChainID
+	if TmRevision(id) == 0 {
+		return id
+	}
+	i := len(id)
+	for i > 0 && id[i-1] != '-' {
+		i--
+	}
+	return fmt.Sprintf("%s%d", id[:i], rev)
+}
+
+// Upgrade records a governance upgrade of the client: new chain id, new latest height and
+// the consensus state stored for it; older trusted states stay.
+func (m *TmLightModel) Upgrade(chainID string, h TmHeight, cons TmCons) {
+	m.P.ChainID = chainID
+	m.States[h] = cons
+	m.Latest = h
 }
 
 // Apply records an accepted update.
